@@ -17,17 +17,17 @@ import (
 // (go/types flags and gc/amd64 sizes as avo's gotypes package sees them).
 
 type movCase struct {
-	An, Bn     int
-	PredA      string // operand.IsX applied to a
-	PredB      string
-	Mask       int64
-	Op         string // "!=" or "=="
-	Value      int64
-	Opcode     string // method called on c
-	Args       []string
-	Recv       string
-	Line       int
-	CondText   string
+	An, Bn   int
+	PredA    string // operand.IsX applied to a
+	PredB    string
+	Mask     int64
+	Op       string // "!=" or "=="
+	Value    int64
+	Opcode   string // method called on c
+	Args     []string
+	Recv     string
+	Line     int
+	CondText string
 }
 
 type movAST struct {
